@@ -13,6 +13,10 @@ CLAIMS = {
   'Seeded time-travel programs (try/undo, try/stop also in loops and left by break/continue/return, handlers containing tries, preempt in try bodies and in defeat functions incl. recursive and preemptive ones, ?? with side-effecting operands, you-helpers) run on the simulated machine whose Turing-jump oracle explores choice/rollback schedules; the committed history must equal that of a reference interpreter that resolves the source-level choice points by newest-first backtracking. Histories of consecutive tries (canary try/undo after each try) make a stale handler observable. Checked and unchecked builds, poisoned free stack.',
   'Two independent searches (machine-level tree with a choice at every branch vs source-level tree) must agree; both are mine, neither is spasm. Budget-exceeding searches are counted and not judged.',
   'deterministic simulation: rollback oracle explores speculative timelines; seeded program/history generation; refinement check against a backtracking reference model'),
+ 'C04': ('fault_enumeration', '3 C04',
+  'For each array-heavy (or time-travel, or fault-planted) program the stack-size axis is enumerated completely: every size from 0 words to the first completing size N plus two (window enumeration plus seeded sizes when N > 90), each run with freshly poisoned free stack and scratch registers. At every size the memory monitor (live ap/fp, array extents, provenance tags), the scope and control monitors must stay silent; below N the run must end in stack_overflow with an uncorrupted output prefix, from N on it must reproduce the reference history, and different garbage must not change it.',
+  'M-mem is sound-by-weakening (unknown provenance falls back to weaker rules); reads of garbage are caught only when they change behaviour across poisons or vs the reference.',
+  'deterministic simulation with enumerated resource-exhaustion fault (stack size axis) and poisoned-memory fault; per-access invariant monitor plus differential oracle'),
  'C05': ('fault_enumeration', '3 C05',
   'The fault axis is enumerated: every fault kind x operator/element type/storage class x boundary index/divisor/length with its nearest harmless neighbours (936 matrix programs whose expected flag is derived independently of the reference model and cross-checked with it), plus the same faults planted at seeded positions inside loops, callees and try bodies of generated programs; exact flag sequence, intact prefix and nothing-after are checked on the committed timeline.',
   'Flag for bad lengths is stack_overflow as the implementation/upstream tests define; bool lengths within 7 of the largest signed value are not probed (README silent).',
@@ -29,6 +33,14 @@ CLAIMS = {
   'Seeded constant expressions (depth <= 5, boundary literals, const locals/globals, optional run-time leaves) compiled as written and as a run-time twin with every constant lifted into a variable; both must commit the reference history at word sizes {2,3,4}; compile-time rejections are accepted only when the twin faults at run time. One genuine defect (unbounded folding, F4) is a recorded known finding, recognised by an exact model of it.',
   'Weak fit (value/program space). Known finding F4 is matched only when the observed output equals the unbounded-folding model exactly.',
   'deterministic simulation of program pairs (constant form / run-time twin) on the simulated machine; differential oracle vs reference model'),
+ 'C15': ('exploration', '3 C15',
+  'Checked and --unchecked builds of the same seeded program (all generators, incl. time travel and harmless twins of planted faults) are stepped on the simulated machine with identical word size, stack, argv and poison; whenever the checked run raises no error flag the unchecked run must commit the identical history. The number of guard instructions executed by the checked run is measured, so "the checks ran and were pure observers" is evidence, not assumption.',
+  'Cases whose checked run ends in an error flag are counted, not judged (unchecked behaviour undefined there).',
+  'deterministic simulation: paired executions under a build-option seam; history equality'),
+ 'C18': ('exploration', '3 C18',
+  'Hash-seed / fresh-process seam: batches of seeded programs compiled in 4 fresh interpreters under seeded PYTHONHASHSEED values and twice in-process must give byte-identical assembly; stack seam: histories at N, N+1, N+2, N+9, 4000 and 100000 words identical; word-size seam: runs at {2,3,4,8} bytes agree whenever the reference histories agree (program constants fit 16 bits); --lint either rejects or leaves the bytes unchanged.',
+  'Assumes PYTHONHASHSEED is the only per-process nondeterminism reachable from hidc.',
+  'deterministic simulation with controlled interpreter hash seed / process seam and configuration sweeps on the simulated machine'),
  'C17': ('exploration', '3 C17',
   'All 65536 16-bit integers, all 256 bytes, both bools, byte arrays/strings of every length 0..64 in eight storage classes, seeded boundary/random integers at 24/32/64 bits; guard variables and a neighbouring array checked by the program itself, M-mem on every library store, selected jobs re-run at the measured minimal stack with poisoned free memory.',
   'Exhaustive only for the 16-bit sweep, bytes, bools and lengths (flagged in coverage.sweep16_complete); SVM assumptions as for C01.',
